@@ -1122,7 +1122,9 @@ class MultiTestResult(TestResult):
     failfast = property(_get_failfast, _set_failfast)
 
     def _get_shouldStop(self):
-        return any(self._dispatch("__getattr__", "shouldStop"))
+        # Ask the ExtendedToOriginalDecorator wrappers (not the wrapped results
+        # directly): they also answer for results without a shouldStop attribute.
+        return any(result.shouldStop for result in self._results)
 
     def _set_shouldStop(self, value):
         # Called because we subclass TestResult. Probably should not do that.
